@@ -11,7 +11,7 @@ def dump_api(req_b64):
     from gapic.utils import Options, to_snake_case
     req = plugin_pb2.CodeGeneratorRequest.FromString(base64.b64decode(req_b64))
     opts = Options.build(req.parameter)
-    package = os.path.commonprefix([p.package for p in req.proto_file if p.name in req.file_to_generate]).rstrip(".")
+    package = ".".join(os.path.commonprefix([p.package.split(".") for p in req.proto_file if p.name in req.file_to_generate]))
     a = api.API.build(req.proto_file, opts=opts, package=package)
     out = {"transport": list(opts.transport), "add_iam": bool(opts.add_iam_methods),
            "naming": {"namespace": list(a.naming.namespace), "name": a.naming.name, "version": a.naming.version,
